@@ -100,7 +100,7 @@ func run(family string, line []byte, rec *recorder, opt string) {
 		runPSI(line, rec)
 	case "alias":
 		runAlias(line, rec)
-	case "demux", "pair", "merge", "skip", "rewind", "rfault", "reader", "robust":
+	case "demux", "pair", "merge", "skip", "rewind", "rfault", "reader", "robust", "acc":
 		var sc streamScenario
 		if err := json.Unmarshal(line, &sc); err != nil {
 			fatal("bad stream scenario: %v: %s", err, line)
@@ -123,6 +123,8 @@ func runStreamFamily(family string, sc *streamScenario, rec *recorder, opt strin
 		runSkip(sc, rec)
 	case "rewind":
 		runRewind(sc, rec)
+	case "acc":
+		runAcc(sc, rec)
 	case "reader":
 		lvl := 1
 		if opt == "deep" {
